@@ -26,8 +26,9 @@ TRUSTED = [
 ASSUMPTIONS = [
     "theorems are over an arbitrary real field (no rounding); shock covariance matrices symmetric (they are diagonal in irispie); "
     "smooth_reproduces_data additionally needs the prediction MSE matrix F of every period to be invertible",
-    "stationary models only (no unknown initial condition / GLS correction); one parameter variant; anticipated shocks absent "
-    "(v_impact is modelled as an input of the theorems but not exercised by the correspondence)",
+    "unit-root models: diffuse_method='fixed_unknown' (the default) with the unit roots identified by the data (the GLS "
+    "system is solved by the inverse in the model, by lstsq in the code); one parameter variant; the impact of anticipated "
+    "shocks enters the model as an input that the harness derives from a public simulate() run on a fresh model object",
     "the branch test `t <= last_period_of_observations` of one_step_back is modelled by the equivalent local test "
     "`observations in this period or backward state present`",
 ]
@@ -43,14 +44,14 @@ MANIFEST = {
                   "likelihood; output mapping through Ua/curr_xi_indexes is row selection and linear.  The model is tied to the "
                   "code by a tolerance correspondence through the public API (random models from source text, masks, stds).",
     "level_note": "Trusted: Coq kernel + vm_compute, harness, Gauss-Jordan vs LAPACK inverse, recorded initial condition checked "
-                  "against its defining equations.  Not covered: unit-root models (GLS initial condition), anticipated shocks, "
+                  "against its defining equations.  Covered since round 2: unit-root models (GLS initial condition), anticipated shocks, call sequences on one model object.  Not covered: rank-deficient GLS systems, other diffuse methods, "
                   "differences below 1e-7 relative, float rounding (theorems are exact over a field).  Re-simulation through "
                   "Simultaneous.simulate is checked by the falsifier only (it is not modelled).",
 }
 
 
 def correspondence(ctx) -> CorrResult:
-    n = int(os.environ.get("VERIF_KF_CASES", ctx.scale(200, 1200)))      # development knob
+    n = int(os.environ.get("VERIF_KF_CASES", ctx.scale(250, 1200)))      # development knob
     return kc.correspondence(ctx, n_cases=n, n_exact=ctx.scale(3, 12) if n >= 100 else 0,
                              max_periods=ctx.scale(8, 24), pid=ID,
                              contributions=False)      # per-period likelihood contributions belong to C03
@@ -75,7 +76,7 @@ def falsify(ctx, hints):
                 run(case)
             except Exception as e:  # noqa
                 ctx.log("falsifier on a disagreement raised", repr(e)[:200])
-    n = int(os.environ.get("VERIF_KF_CASES", ctx.scale(300, 6000)))
+    n = int(os.environ.get("VERIF_KF_CASES", ctx.scale(300, 4000)))
     for _ in range(n):
         case = kc.gen_case(ctx.rng, max_periods=ctx.scale(8, 24))
         info["cases"] += 1
